@@ -104,6 +104,15 @@ def _count_lemmas(sc, v):
     v.extra["apalache_NasCountLemma"] = "EstimateExact, EstimateFailsBeyond, AddOneIsSuccessor, FieldsRoundTrip hold for all 2^24 x 256 (COUNT, gap) pairs (SMT)"
 
 
+def _clamp_lemmas(sc, v):
+    """the repetition-count clamps of the test-mode main program (Stg!Limit) for all counts, discharged symbolically by Apalache"""
+    d = sc.specdir()
+    ok, txt = vlib.run_apalache(d, "StgClampLemma", "Lemmas")
+    if not ok:
+        raise HarnessError("StgClampLemma: the specification's own clamps violate their lemmas:\n" + txt[-1500:])
+    v.extra["apalache_StgClampLemma"] = "PrereqForAllCounts, NothingDropped hold for all repetition counts (SMT over unbounded integers)"
+
+
 def _group_chunks(path, outdir, prefix, nchunks, start_ev="Start"):
     """Split a trace of several histories (each beginning with a Start event) into chunk files of whole histories."""
     hists, cur, curh = [], [], None
@@ -535,6 +544,7 @@ def check_C02(sc, v, tier, seed, replay):
     import random
     import online
     _mc_stg(sc, v, tier)
+    _clamp_lemmas(sc, v)
     emu = online.prepare(sc)
     rnd = random.Random(seed * 1013 + 2)
     # (reg, pdu, svc, rel, dereg): the third shape asks for more services / releases than sessions and more sessions than ... each clamp of
